@@ -438,6 +438,38 @@ fn main() {
                 let p: &'static str = match prop { "C10" => "C10", "C11" => "C11", _ => "C12" };
                 run_engine(Arc::new(RestoreEngine { prop: p }), tier, seed)
             } else if prop == "C20" {
+                // wiring phase: the real server and all 32 combinations of port, role pair, key
+                // and protocol number as connecting peer (exhaustive)
+                let t0 = std::time::Instant::now();
+                let r = auth::wire_phase(None);
+                println!(
+                    "C20 wiring: {} connection attempts against the real server, {:.1}s{}",
+                    r.attempts.len(),
+                    t0.elapsed().as_secs_f64(),
+                    r.skipped.as_ref().map(|s| format!(" (incomplete: {s})")).unwrap_or_default()
+                );
+                *common::EXTRA_COVERAGE.lock().unwrap() = Some(serde_json::json!({
+                    "what": "real server (init_hq_server) started with two different keys; every combination of port (client / worker) x role pair x key (client / worker / other / none) x protocol number tried as a connecting peer with the real do_authentication; only the two matching combinations may be accepted",
+                    "attempts": r.attempts.len(),
+                    "accepted": r.attempts.iter().filter(|(_, ok)| *ok).count(),
+                    "exhaustive": r.attempts.len() == 32,
+                    "skipped": r.skipped,
+                }));
+                if let Some((sig, detail, a)) = auth::wire_verdict(&r) {
+                    let dir = Path::new(common::VERIF_ROOT).join("replays").join("C20").join("found");
+                    let _ = std::fs::create_dir_all(&dir);
+                    let body = serde_json::to_string_pretty(&serde_json::json!({
+                        "property": "C20", "seed": seed, "signature": sig, "detail": detail,
+                        "case": {"wire": [a.0, a.1, a.2, a.3]},
+                    }))
+                    .unwrap();
+                    let path = dir.join(format!("wire-{:016x}.json", common::hash_str(&body)));
+                    let _ = std::fs::write(&path, body);
+                    *common::PRE_VIOLATION.lock().unwrap() = Some((
+                        common::Violation { signature: sig, detail },
+                        path,
+                    ));
+                }
                 run_engine(Arc::new(auth::AuthEngine), tier, seed)
             } else if prop == "C19" {
                 run_engine(Arc::new(stream::StreamEngine), tier, seed)
@@ -466,7 +498,21 @@ fn main() {
                 .ok()
                 .and_then(|t| serde_json::from_str::<serde_json::Value>(&t).ok())
                 .is_some_and(|v| v["case"].get("scenario").is_some());
-            if is_enum {
+            let wire: Option<auth::WireAttempt> = std::fs::read_to_string(path)
+                .ok()
+                .and_then(|t| serde_json::from_str::<serde_json::Value>(&t).ok())
+                .and_then(|v| serde_json::from_value::<(u8, u8, u8, u32)>(v["case"]["wire"].clone()).ok());
+            if let Some(a) = wire {
+                let r = auth::wire_phase(Some(a));
+                if let Some((sig, detail, _)) = auth::wire_verdict(&r) {
+                    println!("VIOLATION property=C20 replay={}", path.display());
+                    println!("  signature: {sig}\n  detail: {detail}");
+                    1
+                } else {
+                    println!("no violation of C20 in this replay ({} attempts{})", r.attempts.len(), r.skipped.map(|s| format!(", incomplete: {s}")).unwrap_or_default());
+                    0
+                }
+            } else if is_enum {
                 replay_enum(prop, path)
             } else if let Some(e) = sim_engine(prop) {
                 replay_engine(&e, path)
